@@ -225,6 +225,9 @@ func parseConverterLine(ctx *context, c *Converter, value string) (err error) {
 		pattern, err = parseIDPattern(c.Package, rest)
 		c.Enum.Excludes = append(c.Enum.Excludes, pattern)
 	case configExtend:
+		if len(strings.Fields(rest)) == 0 {
+			return fmt.Errorf("missing function name")
+		}
 		for _, name := range strings.Fields(rest) {
 			opts := &method.ParseOpts{
 				ErrorPrefix:       "error parsing type",
